@@ -20,7 +20,9 @@ RULE = ("Directories are drawn by Hypothesis (plain, with link files / .cap / ab
         "second actor: for prefixes 0, 1, size/2, size-1, before each of the reader's file-system calls that touch the "
         "cache file another request removes, completes or extends the file (every call index x three actions); rewrite race: "
         "with an expired complete cache in place and a same-length rename in the directory, every state of the file "
-        "observed while the writer rewrites it is replayed as a reader request; killed writer: the cache-writing request runs "
+        "observed while the writer rewrites it is replayed as a reader request, and the rewriter is also really killed (forked "
+        "child, 0 / 1 / size/2 bytes written) with the next request required to show the current directory whatever the dead "
+        "writer left next to the file; killed writer: the cache-writing request runs "
         "in a forked child that dies inside the serialisation after 0 / 1 / size/2 / size-1 bytes, then the directory is listed; "
         "cut while decoding: the reader request runs in a forked child whose audit hook truncates the file (to 0 / 1 / size/2 "
         "bytes) at the decoder's first class look-up, i.e. after the reader has opened the file and before it has consumed it - "
@@ -474,9 +476,54 @@ def _rewrite_race(cfg, ref_cfg, root, forms, ctx, d):
             os.rename(os.path.join(root, side), os.path.join(root, new + side[len(old):]))
     st_ = os.stat(path)
     os.utime(path, (st_.st_atime - 200000, st_.st_mtime - 200000))  # older than the lifetime (100000 s)
+    with open(path, "rb") as f:
+        expired = f.read()
+    pristine = set(os.listdir(root))
     states = _observe_writer(cfg, root, keep_old=True)
     ref = {f: _mask(_listing(ref_cfg, f).response) for f in forms}
     fails = []
+    # the rewriter is really killed (forked child dying inside the serialisation): whatever it leaves in the directory next to
+    # the cut-off file - e.g. the previous generation it had set aside -, the next request shows the CURRENT directory
+    import pickle
+    import pygopherd.handlers.dir as hdir
+    for i, cut in enumerate(sorted({0, 1, len(expired) // 2})):
+        for n in set(os.listdir(root)) - pristine:
+            os.unlink(os.path.join(root, n))
+        with open(path, "wb") as f:
+            f.write(expired)
+        os.utime(path, (st_.st_atime - 200000, st_.st_mtime - 200000))
+        pid = os.fork()
+        if pid == 0:
+            try:
+                class _DyingPickle:
+                    def __getattr__(self, n):
+                        return getattr(pickle, n)
+
+                    @staticmethod
+                    def dump(obj, fp, *a, **kw):
+                        fp.write(pickle.dumps(obj, *a, **kw)[:cut])
+                        fp.flush()
+                        os._exit(0)
+                hdir.pickle = _DyingPickle()
+                _listing(cfg, "gopher")
+            finally:
+                os._exit(0)
+        os.waitpid(pid, 0)
+        left = sorted(set(os.listdir(root)) - pristine)
+        form = forms[i % len(forms)]
+        r = _listing(cfg, form)
+        ctx.count("killed_rewriter_points")
+        ctx.evaluations += 1
+        ctx.nontriv((d, "killed-rewriter", cut))
+        if _mask(r.response) != ref[form] or r.escaped is not None:
+            what = (r.handled_signatures() or ["wrong-listing"])[-1] if not r.escaped else drive.exc_signature(r.escaped)
+            fails.append(Fail("killed-rewriter:%s" % what,
+                              "an expired cache was being rewritten after %r was renamed to %r and the writer was killed after %d bytes (it "
+                              "left %r in the directory): the next %s listing is not the current directory: %r" % (
+                                  old, new, cut, left, form, r.response[:120]), {"logs": r.logs[-2:]}))
+            return fails
+    for n in set(os.listdir(root)) - pristine:
+        os.unlink(os.path.join(root, n))
     seen = set()
     for i, s_ in enumerate(states):
         if s_ in seen:
